@@ -396,7 +396,7 @@ theorem option_regex_only (o : Opts) (b : Bool) (v : Viol) (h : v.rule ≠ "badP
 /-- every use of the process-wide cache of compiled patterns was read; document validation (everything but
 `Schema.visitJSONString`, the value validation of C01) never consults it, and nothing creates an entry -/
 theorem pattern_cache_unused :
-    Gen.patternCacheUnrecognised = [] ∧ codeTable.cacheRead = false ∧ codeTable.cacheWrite = false := by
+    Gen.c04PatternCacheUnrecognised = [] ∧ codeTable.cacheRead = false ∧ codeTable.cacheWrite = false := by
   decide +kernel
 
 /-- **C04, history independence.** The verdict of a `Validate` call is a function of its own document and
